@@ -60,7 +60,7 @@ def r1(cx, rec):
     for sb in sorts:
         e = D.expr_call(sb)
         vec = e[2][0]
-        clo = [x for x in e[2][1:] if x[0] == 'closure']
+        clo = [x for x in e[2][1:] if x[0] in ('closure', 'fn') and F.fns.get(x[1]) is not None]
         asc = None
         if clo:
             asc = C.cmp_orientation(F, clo[0][1], '0')
